@@ -226,6 +226,13 @@ func (g *dcGen) te(cur, pos string, depth int) *DcTE {
 		}
 		return g.builtin()
 	}
+	if (pos == "map" || pos == "slice" || (pos == "array" && g.arrays)) && cur == "p" && r.Chance(2, 3) {
+		// elements of interface type: map values, slice and array elements (each has a branch of its own in the generator)
+		if t := g.pickNamed(cur, isIface); t != nil {
+			g.feats["interface-element:"+pos] = true
+			return t
+		}
+	}
 	for try := 0; try < 20; try++ {
 		k := r.Intn(14)
 		if depth <= 0 && k >= 2 && k <= 5 {
